@@ -278,6 +278,10 @@ Theorem C15_step_additive : forall (I : Type) (g b : R) (solve : @field R I -> R
   (forall Up Up', solve (@fadd R NumR I Up Up') dt = @fadd R NumR I (solve Up dt) (solve Up' dt)) ->
   @newmark_step R NumR I g b solve (addS I st st') dt = addS I (@newmark_step R NumR I g b solve st dt) (@newmark_step R NumR I g b solve st' dt).
 Proof. exact step_additive. Qed.
+(* kinetic + strain energy is a quadratic form of the state *)
+Theorem C15_energy_scales_quadratically : forall (I : Type) (m k : @field R I -> @field R I -> R), sbf I m -> sbf I k ->
+  forall (s : R) (st : @state R I), energy I m k (scaleS I s st) = s * s * energy I m k st.
+Proof. exact energy_scale. Qed.
 (* linear elasticity (M positive definite, K >= 0, beta > 0): the stationary point is unique, hence EVERY minimiser oracle is linear
    and the whole run is a linear map of the initial state -- every gamma, every sequence of non-zero steps *)
 Theorem C15_stationary_point_unique : forall (I : Type) (m k : @field R I -> @field R I -> R), sbf I m -> sbf I k ->
